@@ -691,4 +691,33 @@ class C10(Prop):
         return None
 
 
-REGISTRY.update({c.pid: c for c in [C01, C02, C03, C05, C06, C10]})
+import props as _props
+
+
+class C04(BfsMixin, _props.C04):
+    """C04 of props.py plus, in the thorough tier, the tiny-domain closures (every ADD transition of the closed spaces)"""
+
+    def generate(self, rng, tier):
+        hs = _props.C04.generate(self, rng, tier)
+        if tier == "thorough":
+            hs = self.bfs_histories(tier) + hs
+        return hs
+
+
+class C01T(C01):
+    pass
+
+
+def _with_bfs(cls):
+    class X(BfsMixin, cls):
+        def generate(self, rng, tier):
+            hs = cls.generate(self, rng, tier)
+            if tier == "thorough":
+                hs = self.bfs_histories(tier) + hs
+            return hs
+    X.__name__ = cls.__name__
+    X.pid = cls.pid
+    return X
+
+
+REGISTRY.update({c.pid: c for c in [_with_bfs(C01), C02, _with_bfs(C03), C04, C05, C06, C10]})
